@@ -168,6 +168,12 @@ extern const NoLabel bg_zero_NoLabel;
 extern const EdgeMultiplicity bg_zero_uint;
 extern const bg_real bg_zero_real;
 typedef struct { bg_bool hasP, hasQ; bg_size restCount; } bg_set_u;
+/* std::unordered_set<VertexIndex>: membership of the observation points, number of other members */
+typedef struct { bg_bool hasP, hasQ; bg_size restCount; bg_size restBound; /* every other member < restBound */ } bg_uset_u;
+/* its iterator: the elements not yet passed (the one under the cursor included); order unspecified */
+typedef struct { bg_bool remP, remQ; bg_size remRest; bg_size restBound; VertexIndex cur; bg_bool found; bg_bool walking; } bg_uset_it;
+#define BG_USET_LEFT(it) (((it).remP ? 1 : 0) + ((it).remQ ? 1 : 0) + (it).remRest)
+#define BG_USET_WF(s) ((s).restCount < BG_CAP && (G_P != G_Q || !(s).hasQ))
 typedef struct { bg_size n; bg_size vP, vQ; } bg_vec_sz;
 extern bg_size bg_scratch_sz;
 /* ghost (lemma L7): the pair of the most recent label lookup */
